@@ -645,6 +645,33 @@ def run(ctx):
                       f.name, [[f.text(x) for x in f.nodes[i]["args"]][1:2] for i in pcalls], rets))
     ctx.counters["cached_accessors"] = n
     ctx.floor("cached_accessors", 29, "cached accessors (PROXY expansions) of CgroupContext")
+    # ... and nobody else fills a slot: 'once obtained, a value does not change within the tick' needs every write of data_->X to be the
+    # guarded one in X()'s own accessor.  A reader that also drops a second result into a neighbouring slot (handed over by reference, "while
+    # we have the file open") overwrites a value that may already have been handed out this tick.
+    from ..callgraph import node_writes as _nw
+    for f in sorted(P.fns.values(), key=lambda x: (x.file, x.line, x.usr)):
+        owner_ = f
+        while owner_.kind == "lambda" and owner_.d.get("parentfn") in P.fns:
+            owner_ = P.fns[owner_.d["parentfn"]]
+        if owner_.cls != "Oomd::CgroupContext" or owner_.kind in ("ctor", "dtor") or owner_.name in ("refresh", "proxy") or owner_.name.startswith("operator"):
+            continue
+        is_accessor = any(owner_.callee(i).endswith("::proxy") or owner_.callee(i) == "proxy" for i in owner_.calls())
+        for i in range(len(f.nodes)):
+            nd = f.nodes[i]
+            if nd["k"] not in ("bin", "call", "un") or f.pos_of(i) is None:
+                continue
+            slots = sorted(t_.split("::")[-1] for t_ in _nw(f, i) if t_.startswith("F:Oomd::CgroupContext::CgroupData::"))
+            # mutable-reference hand-over of a slot to anything but proxy()
+            if nd["k"] == "call" and not (f.callee(i).endswith("::proxy") or f.callee(i) == "proxy"):
+                for a_, pt_ in zip(nd.get("args", []), nd.get("ptypes", [])):
+                    if pt_.rstrip().endswith("&") and not pt_.lstrip().startswith("const ") and re.match(r"^this->data_->(->)?(\w+)$", f.text(a_)):
+                        slots.append(re.match(r"^this->data_->(->)?(\w+)$", f.text(a_)).group(2))
+            for sl_ in sorted(set(slots)):
+                if is_accessor and sl_ == owner_.name:
+                    continue
+                ctx.violation("slot-filled-only-by-its-accessor:%s:%s" % (short(owner_), sl_), "who-may-write (per-tick slots)", f.loc(i),
+                              "%s writes the per-tick slot data_->%s (%s), which only %s() may fill, once, while it is empty: a value already handed out this tick "
+                              "can change under the caller's feet" % (owner_.pq, sl_, f.text(i)[:70], sl_))
     # the slot writer: proxy() assigns its `field` parameter on every path
     for f in P.fns.values():
         if f.name == "proxy" and f.file.endswith("CgroupContext.cpp"):
